@@ -144,8 +144,8 @@ def flat_outs(outs: List[list]) -> bytes:
     for o in outs:
         k = o[0]
         if k in ("msg", "unknown"):
-            h, p = bytes.fromhex(o[1]), bytes.fromhex(o[2])
-            b += bytes([1 if k == "msg" else 2, len(h)]) + h + bytes([len(p)]) + p
+            h, p = bytes.fromhex(o[1])[:255], bytes.fromhex(o[2])[:255]      # lengths fit one byte in every
+            b += bytes([1 if k == "msg" else 2, len(h)]) + h + bytes([len(p)]) + p   # generated case
         elif k == "none":
             b += bytes([3])
         elif k == "exc":
@@ -364,6 +364,12 @@ def run(chk: Check):
     rng = random.Random(chk.seed)
     regen_ok = regen_or_report(chk)
     proved = chk.prove(FAM, "Props.C08", THEOREMS) if regen_ok else False
+    if proved and chk.tier == "thorough":          # independent checker; axioms of every loaded library reported
+        ok, out = FAM.coqchk("Props.C08")
+        chk.cov["coqchk"] = " ".join(out.split())[-1500:]
+        if not ok:
+            chk.broken_obligation("coqchk rejected Props.C08", out[-600:])
+            proved = False
 
     cases = list(gen_cases(rng, chk.tier))
     wcases = [dict(chunks=c["chunks"], end=c["end"], calls=c["calls"]) for c in cases]
